@@ -3,7 +3,7 @@
    refinement is proved for the request kinds [direct_reply] covers (see notes/C05.md).
    Only statements, closed by [exact]. *)
 From Coq Require Import List NArith Bool.
-From FB Require Import Gen.Validators Model.Names Model.HostFs Model.Passthrough Proofs.PassthroughCreds Proofs.PassthroughRefine.
+From FB Require Import Gen.Validators Model.Names Model.HostFs Model.Passthrough Proofs.PassthroughCreds Proofs.PassthroughRefine Proofs.PassthroughWbAppend.
 Import ListNotations.
 Local Open Scope N_scope.
 
@@ -87,22 +87,29 @@ Theorem C05_flags_writeback_access : forall cf f, c_writeback cf = true -> (N.la
   get_writeback_open_flags cf f =
   (if has f O_APPEND then clear (N.lor (clear f O_ACCMODE) O_RDWR) O_APPEND else N.lor (clear f O_ACCMODE) O_RDWR).
 Proof. exact writeback_flags_access. Qed.
-Theorem C05_flags_check_fd : forall s hid hd flags hd' s', check_fd_flags s hid hd flags = (hd', s') ->
+Theorem C05_flags_check_fd : forall cf s hid hd flags hd' s', check_fd_flags cf s hid hd flags = (hd', s') ->
   hd_flags hd' = flags /\ hd_host hd' = hd_host hd /\ hd_acc hd' = hd_acc hd /\
-  (hd_flags hd <> flags -> hd_append hd' = has flags O_APPEND) /\ p_host s' = p_host s.
+  (hd_flags hd <> flags -> hd_append hd' = has (setfl_flags cf flags) O_APPEND) /\ p_host s' = p_host s.
 Proof. exact check_fd_flags_sets. Qed.
 (* the per-request flags word of READ/WRITE: recorded and applied (F_SETFL) when it differs from the recorded one; the
    write then goes through pwrite on that descriptor (C05_op_refines_syscall: [fd_append] in [direct_host]), and
    pwrite on an O_APPEND descriptor appends whatever the offset (kernel fact of HostFs.v) *)
-Theorem C05_write_flags : forall s hid hd flags hd' s', check_fd_flags s hid hd flags = (hd', s') ->
-  hd_flags hd' = flags /\ hd_append hd' = fd_append hd flags /\
-  (hd_flags hd <> flags -> hd_append hd' = has flags O_APPEND) /\ (hd_flags hd = flags -> hd' = hd /\ s' = s).
+Theorem C05_write_flags : forall cf s hid hd flags hd' s', check_fd_flags cf s hid hd flags = (hd', s') ->
+  hd_flags hd' = flags /\ hd_append hd' = fd_append cf hd flags /\
+  (hd_flags hd <> flags -> hd_append hd' = has (setfl_flags cf flags) O_APPEND) /\ (hd_flags hd = flags -> hd' = hd /\ s' = s).
 Proof. exact write_flags_status. Qed.
 Theorem C05_pwrite_append : forall c h i off off' w, sys_pwrite c h i true off w = sys_pwrite c h i true off' w.
 Proof. exact pwrite_append_ignores_offset. Qed.
-(* "under writeback no descriptor ever carries O_APPEND" (what open establishes) is refuted: known finding *)
-Theorem C05_writeback_append_refuted : ~ C05_writeback_append_full.
-Proof. exact writeback_append_refuted. Qed.
+(* under writeback no descriptor of the handle map ever carries O_APPEND (open and create clear it; since fix 9c6feeb
+   check_fd_flags no longer puts it back): for every request kind and configuration with writeback *)
+Theorem C05_writeback_append : C05_writeback_append_full.
+Proof. exact writeback_append_full. Qed.
+Example C05_writeback_append_nonvacuous : c_writeback wb_cfg = true /\ HP wb_state /\ p_handles wb_state <> [] /\
+  (let s1 := snd (pstep wb_cfg wb_state (QWrite 2 1 0 [65] (O_WRONLY + O_APPEND) 0)) in
+   let s2 := snd (pstep wb_cfg s1 (QWrite 2 1 0 [66] O_WRONLY 0)) in
+   let s3 := snd (pstep wb_cfg s2 (QWrite 2 1 0 [67] (O_WRONLY + O_APPEND) 0)) in
+   sys_pread (p_host s3) 11 16 0 = Ok [67; 49; 50; 51]).
+Proof. exact wb_nonvacuous. Qed.
 
 Theorem C05_special_never_opened : forall cf s inode flags d, assoc inode (p_inodes s) = Some d ->
   is_safe_inode (id_mode d) = false -> open_inode cf s inode flags = (Err EBADF, s).
@@ -135,5 +142,5 @@ Print Assumptions C05_flags_writeback_access.
 Print Assumptions C05_flags_check_fd.
 Print Assumptions C05_write_flags.
 Print Assumptions C05_pwrite_append.
-Print Assumptions C05_writeback_append_refuted.
+Print Assumptions C05_writeback_append.
 Print Assumptions C05_special_never_opened.
